@@ -2,6 +2,7 @@
 From Coq Require Extraction ExtrOcamlBasic ExtrOcamlString.
 From Coq Require Import List Arith.
 Require Import TT.Model.Str TT.Model.TypeParse TT.Model.C05Emit TT.Spec.C05Spec TT.Spec.C18Spec TT.Spec.C18Known.
+Require Import TT.Model.C18Decl.
 
 Definition c18_tts (t : rty) : str := tts t.
 Definition c18_emit (s : site) (md : mode) (m : mapping) (t : rty) : option str := emit_type s md m t.
@@ -11,5 +12,11 @@ Definition c18_abs (s : site) (md : mode) (m : mapping) (t : rty) (with_text : s
 Definition c18_dom (m : mapping) (t : rty) : bool := dom_m m t.
 Definition c18_mentions (m : mapping) (t : rty) : bool := mentions m t.
 
+(* the declaration model: names types.ts exports for project types under a table, the clause, the class C18-4 *)
+Definition c18_declared (zod : bool) (m : mapping) (all : list (str * list rty)) (sites : list rty) : list str :=
+  declared_ts zod m (mk_all all) (structs_of sites).
+Definition c18_decl_oracle (m : mapping) (names : list str) : bool := c18_decl_ok m names.
+Definition c18_decl_class (m : mapping) (all : list (str * list rty)) : bool := kf18_own_name_mapped m (mk_all all).
+
 Extraction Language OCaml.
-Extraction "tt_c18.ml" c18_tts c18_emit c18_oracle c18_abs c18_dom c18_mentions.
+Extraction "tt_c18.ml" c18_tts c18_emit c18_oracle c18_abs c18_dom c18_mentions c18_declared c18_decl_oracle c18_decl_class.
